@@ -13,6 +13,7 @@
 #include <cstdint>
 #include <cstring>
 #include <memory>
+#include <sys/resource.h>
 #include <sys/wait.h>
 #include <unistd.h>
 #include "rkcommon/networking/DataStreaming.h"
@@ -345,6 +346,9 @@ static std::string inChild(const std::function<std::string()> &f)
   if (pid == 0) {
     close(fd[0]);
     inForkedChild = true;
+    // a call made here is expected to throw at once; one that instead walks gigabytes (a container resized to a
+    // garbage length) is ended after 4 s of CPU time and observed as "crash"
+    { struct rlimit rl; rl.rlim_cur = 4; rl.rlim_max = 5; setrlimit(RLIMIT_CPU, &rl); }
     std::string s;
     try { s = f(); } catch (...) { s = "uncaught"; }
     ssize_t k = ::write(fd[1], s.data(), s.size());
